@@ -90,13 +90,13 @@ def establish_strategies(hashed, tier):
     """the catalogue: every slot x side x lie x method; late choice of every non-response field"""
     S = []
 
-    def add(name, hs=None, hc=None, unlink=(), rev=None, sim=None, rev_delta=None, cb=10, mb=1000):
+    def add(name, hs=None, hc=None, unlink=(), rev=None, sim=None, rev_delta=None, cb=10, mb=1000, zset=None):
         hs = hs or ["ok"] * 5
         hc = hc or ["ok"] * 5
         rev = rev or {}
         sim = sim or []
         S.append({"proof": "establish", "id": len(S) + 1, "name": name, "hs": hs, "hc": hc, "unlink": list(unlink), "rev": rev,
-                  "sim": sim, "rev_delta": rev_delta or {}, "cb": cb, "mb": mb,
+                  "sim": sim, "rev_delta": rev_delta or {}, "cb": cb, "mb": mb, "zset": zset or [],
                   "clusters": est_clusters(hs, hc, set(unlink), rev, sim, hashed, rev_delta)})
 
     def lie(slot, kind):
@@ -145,6 +145,24 @@ def establish_strategies(hashed, tier):
         add(f"revealed scalar {k} shifted, T of state and close chosen late", rev_delta={k: 1},
             sim=[{"proof": "state", "slot": slot, "field": "T"}, {"proof": "close", "slot": slot, "field": "T"}])
         add(f"revealed scalar {k} shifted only", rev_delta={k: 1})
+    # responses NOT those of the committed values: after the challenge the prover sends, for a slot it lied in,
+    # the response an honest prover for the AGREED value would send.  Every linear check then passes and only
+    # the Schnorr equation of that sub-proof refuses.  With COMPENSATING lies (+1 in the state, -1 in the close
+    # state) the two Schnorr equations are each false while their unweighted sum holds.
+    for slot in range(5):
+        if slot != 1:
+            for a, b in (("plus1", "minus1"), ("minus1", "plus1")):
+                add(f"compensating lies slot {slot}: state {a}, close {b}, responses as for the agreed values",
+                    lie(slot, a), lie(slot, b), zset=[{"proof": "state", "slot": slot}, {"proof": "close", "slot": slot}])
+            add(f"lie plus1 slot {slot} state, response as for the agreed value", lie(slot, "plus1"), None,
+                zset=[{"proof": "state", "slot": slot}])
+        add(f"lie plus1 slot {slot} close, response as for the agreed value", None, lie(slot, "plus1"),
+            zset=[{"proof": "close", "slot": slot}])
+    x = ["ok", "ok", "ok", "plus1", "minus1"]
+    add("state: customer balance +1 and merchant balance -1, responses as for the agreed values", x, None,
+        zset=[{"proof": "state", "slot": 3}, {"proof": "state", "slot": 4}])
+    add("state and close state: customer balance +1 and merchant balance -1, responses as for the agreed values", x, x,
+        zset=[{"proof": p, "slot": k} for p in ("state", "close") for k in (3, 4)])
     return S
 
 
@@ -229,7 +247,7 @@ def pay_strategies(hashed, tier):
 
     def add(name, ab=None, **kw):
         d = {"proof": "pay", "id": 1000 + len(S) + 1, "name": name, "hpt": ok5, "hst": ok5, "hcl": ok5, "hrl": "ok",
-             "claimed_nonce": "real", "token": "real", "unlink": [], "rev": {}, "sim": [], "rev_delta": {},
+             "claimed_nonce": "real", "token": "real", "unlink": [], "rev": {}, "sim": [], "rev_delta": {}, "zset": [],
              "amount": 7, "cb": 100, "mb": 50, "history": []}
         d.update(kw)
         d["clusters"] = pay_clusters(ab or {}, hashed)
@@ -306,6 +324,44 @@ def pay_strategies(hashed, tier):
     add("customer balance 2^63+99 (huge negative amount)", {"pay.cb": {"m": {"pt": 0, "st": 6, "cl": 6, "d1": 1}}, "pay.mb": {"m": {"pt": 5, "st": 6, "cl": 6, "d1": 0}}},
         amount=-(2**63 - 1), range_cb=2**63 - 1)
     add("customer balance -1, range proof unlinked", {"pay.cb": {"m": {"pt": 0, "st": 6, "cl": 6, "d1": 0}, "t": {"d1": 2}}}, amount=101, unlink=["pt3", "st3"])
+    # responses not those of the committed values (see the establish catalogue): single and compensating lies
+    for slot, nm, cl_name in ((0, "channel id", "pay.cid"), (2, "new lock", "pay.newlock"), (3, "customer balance", "pay.cb"), (4, "merchant balance", "pay.mb")):
+        kw = {"range_cb": 93} if slot == 3 else ({"range_mb": 57} if slot == 4 else {})
+        mk = ("a", "b") if slot in (0, 2) else ("st", "cl")
+        add(f"compensating lies in the {nm}: state +1, close state -1, responses as for the agreed values",
+            {cl_name: {"m": {mk[0]: 2, mk[1]: 0}}}, hst=v(slot, "plus1"), hcl=v(slot, "minus1"),
+            zset=[{"proof": "st", "slot": slot}, {"proof": "cl", "slot": slot}], **kw)
+        add(f"lie in the {nm} of the state, response as for the agreed value", {cl_name: {"m": {mk[0]: 2}}}, hst=v(slot, "plus1"),
+            zset=[{"proof": "st", "slot": slot}], **kw)
+        add(f"lie in the {nm} of the close state, response as for the agreed value", {cl_name: {"m": {mk[1]: 2}}}, hcl=v(slot, "plus1"),
+            zset=[{"proof": "cl", "slot": slot}])
+    add("close tag replaced, response as for the real tag", {"pay.tag": {"m": {"a": 2}}}, hcl=v(1, "plus1"), zset=[{"proof": "cl", "slot": 1}])
+    add("lock commitment to plus1 value, response as for the real lock", {"pay.oldlock": {"m": {"a": 2}}}, hrl="plus1",
+        zset=[{"proof": "rl", "slot": 0}])
+    # digit-level range prover: arbitrary digits and digit signatures
+    def digs(value, over=None):
+        out = []
+        for j in range(9):
+            out.append({"d": value % 128, "sig": "params"})
+            value //= 128
+        for k, e in (over or {}).items():
+            out[k] = e
+        return out
+    add("honest, range constraints assembled digit by digit", digits_cb=digs(93), digits_mb=digs(57))
+    add("one honest digit carried by a foreign-key signature", digits_cb=digs(93, {1: {"d": 0, "sig": "otherkey"}}))
+    add("value 93 written as -35 + 1*128, the digit -35 signed by a foreign key", digits_cb=digs(93, {0: {"d": -35, "sig": "otherkey"}, 1: {"d": 1, "sig": "params"}}))
+    add("digit 128 (= published range + 1) signed by a foreign key", cb=135, digits_cb=digs(128, {0: {"d": 128, "sig": "otherkey"}, 1: {"d": 0, "sig": "params"}}))
+    add("true statement, two cooperating forged digit signatures (H, Za), (-H, Zb)", digits_cb=digs(93, {0: {"d": 93, "sig": "pairA"}, 1: {"d": 0, "sig": "pairB"}}))
+    add("true statement, cooperating forged digit signatures in the merchant balance constraint",
+        digits_mb=digs(57, {3: {"d": 0, "sig": "pairA"}, 8: {"d": 0, "sig": "pairB"}}))
+    add("overdraft: customer balance -5 carried by two cooperating forged digit signatures",
+        {"pay.cb": {"m": {"pt": 0, "st": 6, "cl": 6, "d1": 0}}}, amount=105,
+        digits_cb=digs(0, {0: {"d": -5, "sig": "pairA"}, 1: {"d": 0, "sig": "pairB"}}))
+    add("overdraft: customer balance -5, digit -5 signed by a foreign key",
+        {"pay.cb": {"m": {"pt": 0, "st": 6, "cl": 6, "d1": 0}}}, amount=105, digits_cb=digs(0, {0: {"d": -5, "sig": "otherkey"}}))
+    add("merchant overdraft: merchant balance -1 carried by two cooperating forged digit signatures",
+        {"pay.mb": {"m": {"pt": 5, "st": 6, "cl": 6, "d1": 0}}}, amount=-51,
+        digits_mb=digs(0, {0: {"d": -1, "sig": "pairA"}, 5: {"d": 0, "sig": "pairB"}}))
     # pay token
     add("pay token signed by another key", token="otherkey")
     add("all-identity blinded pay token (chosen randomness) around an unsigned old state", token="identity",
